@@ -98,7 +98,10 @@ impl Prop for C12 {
           let n = r * c; let mut e = Vec::new();
           for _ in 0..n { e.push(rng.pick(&vals).clone()); }
           let cell = format!("from={};to={};group=matrix;shape={}x{}", k1, k2, r, c);
-          out.push(Case { id: cell.clone(), cell, input: json!({"mode": "matrix", "to": k2, "m": CVal::M(k1.to_string(), r, c, e)}) });
+          out.push(Case { id: cell.clone(), cell: cell.clone(), input: json!({"mode": "matrix", "to": k2, "m": CVal::M(k1.to_string(), r, c, e.clone())}) });
+          // the same conversion with the annotation written without a shape (<[k]>), which keeps the shape as well
+          let cell2 = format!("{};form=shapeless", cell);
+          out.push(Case { id: cell2.clone(), cell: cell2, input: json!({"mode": "matrix", "to": k2, "noshape": true, "m": CVal::M(k1.to_string(), r, c, e)}) });
         }
       }
       // string -> number must fail ; number -> string is unconstrained
@@ -195,8 +198,7 @@ impl Prop for C12 {
         let m: CVal = serde_json::from_value(case.input["m"].clone()).unwrap();
         let (r, c) = m.shape();
         let mut s = Sess::new(); s.bind("m", &m, false);
-        // one case in three writes the annotation without a shape (<[k]>), which keeps the shape as well
-        let noshape = case.id.bytes().fold(0u32, |h, b| h.wrapping_mul(31).wrapping_add(b as u32)) % 3 == 0;
+        let noshape = case.input.get("noshape").is_some();
         let res = if noshape { s.eval(&format!("n<[{}]> := m", annot(k2))) } else { s.eval(&format!("n<[{}]:{},{}> := m", annot(k2), r, c)) };
         let mut twins = Vec::new();
         for e in m.elems() { let mut t = Sess::new(); t.bind("x", &e, false); twins.push(t.eval(&format!("y<{}> := x", annot(k2)))); }
